@@ -1516,3 +1516,218 @@ Proof.
       change (nq (setF f xd s)) with (nq s). clear - K3 C3 C4. lia.
     + intros _ _ _. right. change (nq (setF f xd s)) with (nq s). unfold nq. rewrite Hq. cbn [length]. clear. lia.
 Qed.
+
+(* completing a registered receive future whose entry (if any) is unlinked — the repaired Ready path *)
+Lemma q_done_unlink f x0 xd s :
+  InvD [] s -> InvW s -> getF f s = Some x0 -> f_recv x0 = true ->
+  f_recv xd = true -> f_h xd = f_h x0 -> f_live xd = f_live x0 -> f_item xd = f_item x0 -> f_reg xd = false ->
+  InvD [] (with_arq (unlink f (arq s)) (setF f xd s)) /\ InvW (with_arq (unlink f (arq s)) (setF f xd s)).
+Proof.
+  intros HD HW Hg Hrv E1 E2 E3 E4 E5.
+  assert (Heq : core_eq (with_arq (unlink f (arq s)) (with_asq (asq s) (setF f xd s)))
+                        (with_arq (unlink f (arq s)) (setF f xd s))) by core_eq_refl.
+  split.
+  - apply (InvD_ext [] _ _ Heq). apply InvD_upd with x0; [exact HD | apply (w_fnd s HW) | exact Hg |].
+    intros u. unfold cellp. rewrite E3, E4. reflexivity.
+  - apply (InvW_ext _ _ Heq). apply InvW_upd with x0.
+    + exact HW.
+    + exact Hg.
+    + congruence.
+    + exact E2.
+    + rewrite E3. auto.
+    + rewrite E5. discriminate.
+    + apply unlink_NoDup, (w_arq_nd s HW).
+    + apply (w_asq_nd s HW).
+    + intros f1 w1 Hi. apply unlink_In in Hi. destruct Hi as [Hi Hne]. left. auto.
+    + intros f1 w1 Hi. left. split; [|exact Hi]. intros ->. eapply not_in_asq_recv; eauto.
+    + intros f1 Hne Hi. apply unlink_keys. auto.
+    + auto.
+    + rewrite E5. discriminate.
+    + intros _ Hi. apply unlink_keys in Hi. destruct Hi as [_ Hi]. contradiction.
+    + intros _ Hi. destruct (akeys_In _ _ Hi) as [w1 Hi1]. exfalso. eapply not_in_asq_recv; eauto.
+    + intros _ Hi. apply unlink_keys in Hi. destruct Hi as [_ Hi]. contradiction.
+    + rewrite E1. discriminate.
+    + intros Hi. apply unlink_keys in Hi. destruct Hi as [_ Hi]. contradiction.
+Qed.
+
+(* ... and the same with the entry left behind (the code as it is): the F-06 event *)
+Lemma q_done_stale f x0 xd s :
+  InvD [] s -> InvW s -> getF f s = Some x0 -> f_recv x0 = true -> is_success (f_state x0) = false ->
+  fx06 (fx s) = false ->
+  f_recv xd = true -> f_h xd = f_h x0 -> f_live xd = f_live x0 -> f_item xd = f_item x0 -> f_reg xd = false ->
+  f_state xd = f_state x0 ->
+  InvD [] (with_tn (set_t06 (tn s)) (setF f xd s)) /\ InvW (with_tn (set_t06 (tn s)) (setF f xd s)).
+Proof.
+  intros HD HW Hg Hrv Hns Hfx E1 E2 E3 E4 E5 E6.
+  set (s' := with_tn (set_t06 (tn s)) s).
+  assert (HD' : InvD [] s') by (apply InvD_with_tn; exact HD).
+  assert (HW' : InvW s').
+  { apply InvW_with_tn; [exact HW | apply tle_set_t06 | apply ok_set_t06; [apply (w_taint s HW) | exact Hfx]]. }
+  assert (Heq : core_eq (with_arq (arq s') (with_asq (asq s') (setF f xd s'))) (with_tn (set_t06 (tn s)) (setF f xd s)))
+    by (subst s'; core_eq_refl).
+  split.
+  - apply (InvD_ext [] _ _ Heq). apply InvD_upd with x0; [exact HD' | apply (w_fnd s' HW') | exact Hg |].
+    intros u. unfold cellp. rewrite E3, E4. reflexivity.
+  - apply (InvW_ext _ _ Heq). apply InvW_upd with x0.
+    + exact HW'.
+    + exact Hg.
+    + congruence.
+    + exact E2.
+    + rewrite E3. auto.
+    + rewrite E5. discriminate.
+    + apply (w_arq_nd s' HW').
+    + apply (w_asq_nd s' HW').
+    + intros f1 w1 Hi. destruct (N.eq_dec f1 f) as [->|Hne]; [right; auto | left; auto].
+    + intros f1 w1 Hi. left. split; [|exact Hi]. intros ->. eapply (not_in_asq_recv s'); eauto.
+    + auto.
+    + auto.
+    + rewrite E5. discriminate.
+    + intros Hsc Hi. destruct (akeys_In _ _ Hi) as [w1 Hi1]. rewrite E6. apply (w_sc0 s' HW' Hsc f w1 x0 Hi1 Hg).
+    + intros _ Hi. destruct (akeys_In _ _ Hi) as [w1 Hi1]. exfalso. eapply (not_in_asq_recv s'); eauto.
+    + cbn. discriminate.
+    + rewrite E1. discriminate.
+    + intros _. rewrite E6. exact Hns.
+Qed.
+
+Lemma recv_try_q f w x0 s :
+  Inv s -> getF f s = Some x0 -> f_recv x0 = true -> f_live x0 = true -> f_done x0 = false ->
+  f_reg x0 = true -> is_success (f_state x0) = false ->
+  Inv (fst (recv_try f w true x0 s)).
+Proof.
+  intros H Hg Hrv Hl Hd Hreg Hns. destruct H as [HD [HW HK]].
+  assert (Q1 : pw_r x0 = is_waiting (f_state x0)) by (unfold pw_r; rewrite Hrv, Hreg; reflexivity).
+  assert (Q2 : pi_r x0 = false) by (unfold pi_r; rewrite Hns; apply andb_false_r).
+  assert (Q3 : pw_s x0 = false) by (unfold pw_s; rewrite Hrv; reflexivity).
+  assert (Q4 : pi_s x0 = false) by (unfold pi_s; rewrite Hrv; reflexivity).
+  assert (Hwq : is_waiting (f_state x0) = true -> In f (akeys (arq s))).
+  { intros E. pose proof (w_wq s HW f x0 Hg Hreg E) as Hi. rewrite Hrv in Hi. exact Hi. }
+  set (xd := set_done (set_reg false x0)).
+  destruct (preds_unreg xd eq_refl) as (D1&D2&D3&D4).
+  (* the completion step, from any state s1 that still has f's record and entry as s has them *)
+  assert (Hfin : forall s1 (dq : nat),
+            InvD [] s1 -> InvW s1 -> getF f s1 = Some x0 -> arq s1 = arq s -> fx s1 = fx s -> tn s1 = tn s ->
+            hs s1 = hs s -> sc s1 = sc s -> rc s1 = rc s -> ncap s1 = ncap s ->
+            cnt pw_r (fs s1) = cnt pw_r (fs s) -> cnt pi_r (fs s1) = cnt pi_r (fs s) ->
+            nq s = (nq s1 + dq)%nat ->
+            (t12 (tn s) = false -> cnt pw_s (fs s1) = 0%nat \/ (ncap s <= nq s1 + cnt pi_s (fs s1))%nat) ->
+            Inv (let s2 := setF f xd s1 in
+                 if fx06 (fx s2) then with_arq (unlink f (arq s2)) s2 else taint set_t06 (queued f (arq s2)) s2)).
+  { intros s1 dq HD1 HW1 G1 Ea Efx Etn Ehs Esc Erc Ecap Er Ei Hlen Hks. cbv zeta.
+    change (fx (setF f xd s1)) with (fx s1). change (arq (setF f xd s1)) with (arq s1). rewrite Efx.
+    destruct (fx06 (fx s)) eqn:E6.
+    - destruct (q_done_unlink f x0 xd s1 HD1 HW1 G1 Hrv Hrv eq_refl eq_refl eq_refl eq_refl) as [HD2 HW2].
+      split; [exact HD2|]. split; [exact HW2|].
+      destruct (cnt4 f x0 xd s1 (with_arq (unlink f (arq s1)) (setF f xd s1)) (w_fnd s1 HW1) G1 eq_refl) as (C1 & C2 & C3 & C4).
+      rewrite D1, Q1 in C1. rewrite D2, Q2 in C2. rewrite D3, Q3 in C3. rewrite D4, Q4 in C4. cbn [b2n] in C1, C2, C3, C4.
+      apply (K_after s _ (b2n (is_waiting (f_state x0))) 0 0 0 HK); try assumption.
+      + rewrite <- Er. clear - C1. lia.
+      + rewrite <- Ei. clear - C2. lia.
+      + intros T. specialize (Hks T). change (nq (with_arq (unlink f (arq s1)) (setF f xd s1))) with (nq s1).
+        clear - Hks C3 C4. lia.
+      + intros _ _ K. change (nq (with_arq (unlink f (arq s1)) (setF f xd s1))) with (nq s1).
+        clear - K Hlen. unfold b2n. destruct (is_waiting (f_state x0)); lia.
+    - destruct (queued f (arq s1)) eqn:Eq; unfold taint.
+      + assert (Efx1 : fx06 (fx s1) = false) by (rewrite Efx; exact E6).
+        change (tn (setF f xd s1)) with (tn s1).
+        destruct (q_done_stale f x0 xd s1 HD1 HW1 G1 Hrv Hns Efx1 Hrv eq_refl eq_refl eq_refl eq_refl eq_refl) as [HD2 HW2].
+        split; [exact HD2|]. split; [exact HW2|].
+        destruct (cnt4 f x0 xd s1 (with_tn (set_t06 (tn s1)) (setF f xd s1)) (w_fnd s1 HW1) G1 eq_refl) as (C1 & C2 & C3 & C4).
+        rewrite D3, Q3 in C3. rewrite D4, Q4 in C4. cbn [b2n] in C3, C4.
+        destruct HK as [K1 K2 K3].
+        apply InvK_intro.
+        * st_goal. rewrite Ehs, Esc, Erc. cbn [t07 set_t06]. rewrite Etn. exact K1.
+        * cbn. discriminate.
+        * change (tn (with_tn (set_t06 (tn s1)) (setF f xd s1))) with (set_t06 (tn s1)).
+          change (nq (with_tn (set_t06 (tn s1)) (setF f xd s1))) with (nq s1).
+          change (ncap (with_tn (set_t06 (tn s1)) (setF f xd s1))) with (ncap s1).
+          cbn [t12 set_t06]. rewrite Ecap. intros T. rewrite Etn in T. specialize (Hks T).
+          clear - Hks C3 C4. lia.
+      + assert (Hnq1 : ~ In f (akeys (arq s1))) by (apply queued_false; exact Eq).
+        destruct (unq_done f x0 xd s1 HD1 HW1 G1 Hrv Hnq1 Hrv eq_refl eq_refl eq_refl eq_refl) as [HD2 HW2].
+        split; [exact HD2|]. split; [exact HW2|].
+        destruct (cnt4 f x0 xd s1 (setF f xd s1) (w_fnd s1 HW1) G1 eq_refl) as (C1 & C2 & C3 & C4).
+        assert (Enw : is_waiting (f_state x0) = false).
+        { destruct (is_waiting (f_state x0)) eqn:E; [|reflexivity]. exfalso. apply Hnq1. rewrite Ea. apply Hwq. reflexivity. }
+        rewrite D1, Q1, Enw in C1. rewrite D2, Q2 in C2. rewrite D3, Q3 in C3. rewrite D4, Q4 in C4. cbn [b2n] in C1, C2, C3, C4.
+        apply (K_after s _ 0 0 0 0 HK); try assumption.
+        * rewrite <- Er. clear - C1. lia.
+        * rewrite <- Ei. clear - C2. lia.
+        * intros T. specialize (Hks T). change (nq (setF f xd s1)) with (nq s1). clear - Hks C3 C4. lia.
+        * intros _ _ K. change (nq (setF f xd s1)) with (nq s1). clear - K Hlen. lia. }
+  unfold recv_try.
+  pose proof (try_recv_core_core [] s HD HW) as Hs.
+  destruct (try_recv_core s) as [s1 [v| |]]; cbn [fst].
+  - destruct Hs as (HD1 & HW1 & Hq & Hrecvd & Fr & Harq & Hacc & Eff & Hkeep).
+    destruct Fr as (Fcap & Ffx & Fsc & Frc & Fhs & Fnext & Fback & Fdropped & Ffreed & Ftn & Fdk).
+    destruct Eff as (Er1 & Er2 & Es).
+    assert (Hlen : nq s = (nq s1 + 1)%nat) by (unfold nq; rewrite Hq; cbn [length]; clear; lia).
+    apply (Hfin s1 1%nat); try assumption.
+    + apply Hkeep; assumption.
+    + unfold ncap. rewrite Fcap. reflexivity.
+    + intros T. apply (K3_after_pop s s1 HK (conj Er1 (conj Er2 Es)) Hlen T).
+  - destruct Hs as (-> & Hq & Hsc).
+    destruct (queued f (arq s)) eqn:Eq; cbn [fst].
+    + (* still parked: refresh the waker *)
+      set (xw := set_reg true x0).
+      assert (Heq : core_eq (with_arq (set_waker f w (arq s)) (with_asq (asq s) (setF f xw s)))
+                            (with_arq (set_waker f w (arq s)) (setF f xw s))) by core_eq_refl.
+      apply queued_In in Eq.
+      split; [|split].
+      * apply (InvD_ext [] _ _ Heq). apply InvD_upd with x0; [exact HD | apply (w_fnd s HW) | exact Hg | reflexivity].
+      * apply (InvW_ext _ _ Heq). apply InvW_upd with x0.
+        -- exact HW.
+        -- exact Hg.
+        -- reflexivity.
+        -- reflexivity.
+        -- cbn. auto.
+        -- cbn. auto.
+        -- rewrite set_waker_keys. apply (w_arq_nd s HW).
+        -- apply (w_asq_nd s HW).
+        -- intros f1 w1 Hi. destruct (N.eq_dec f1 f) as [->|Hne]; [right; auto|].
+           left. split; [exact Hne|]. eapply set_waker_other; eauto.
+        -- intros f1 w1 Hi. left. split; [|exact Hi]. intros ->. eapply not_in_asq_recv; eauto.
+        -- intros f1 _ Hi. rewrite set_waker_keys. exact Hi.
+        -- auto.
+        -- intros _ _. rewrite Hrv. rewrite set_waker_keys. exact Eq.
+        -- intros E. contradiction.
+        -- intros _ Hi. destruct (akeys_In _ _ Hi) as [w1 Hi1]. exfalso. eapply not_in_asq_recv; eauto.
+        -- intros _ _. reflexivity.
+        -- cbn. rewrite Hrv. discriminate.
+        -- intros _. exact Hns.
+      * destruct (cnt4 f x0 xw s (with_arq (set_waker f w (arq s)) (setF f xw s)) (w_fnd s HW) Hg eq_refl) as (C1 & C2 & C3 & C4).
+        assert (W1 : pw_r xw = pw_r x0) by (unfold pw_r; cbn; rewrite Hreg; reflexivity).
+        assert (W2 : pi_r xw = pi_r x0) by (unfold pi_r; cbn; rewrite Hreg; reflexivity).
+        assert (W3 : pw_s xw = pw_s x0) by (unfold pw_s; cbn; rewrite Hreg; reflexivity).
+        assert (W4 : pi_s xw = pi_s x0) by (unfold pi_s; cbn; rewrite Hreg; reflexivity).
+        rewrite W1 in C1. rewrite W2 in C2. rewrite W3 in C3. rewrite W4 in C4.
+        apply (K_after s _ 0 0 0 0 HK); try reflexivity.
+        -- clear - C1. lia.
+        -- clear - C2. lia.
+        -- intros T. destruct HK as [_ _ K3]. fold (nq s) in K3. fold (ncap s) in K3. specialize (K3 T).
+           change (nq (with_arq (set_waker f w (arq s)) (setF f xw s))) with (nq s). clear - K3 C3 C4. lia.
+        -- intros _ _ K. change (nq (with_arq (set_waker f w (arq s)) (setF f xw s))) with (nq s). clear - K. lia.
+    + (* registered but not queued: only a (never seen) CANCELLED state; the code parks again *)
+      assert (Hnq : ~ In f (akeys (arq s))) by (apply queued_false; exact Eq).
+      assert (Enw : is_waiting (f_state x0) = false).
+      { destruct (is_waiting (f_state x0)) eqn:E; [|reflexivity]. exfalso. apply Hnq. apply Hwq. reflexivity. }
+      set (xw := set_reg true (set_state Waiting x0)).
+      destruct (reg_recv f w x0 xw s HD HW Hg Hrv Hl Hd Hnq Hsc Hrv eq_refl Hl Hd eq_refl eq_refl eq_refl) as [HD2 HW2].
+      split; [exact HD2|]. split; [exact HW2|].
+      destruct (cnt4 f x0 xw s (with_arq (arq s ++ [(f, w)]) (setF f xw s)) (w_fnd s HW) Hg eq_refl) as (C1 & C2 & C3 & C4).
+      assert (W1 : pw_r xw = true) by (unfold pw_r; cbn; rewrite Hrv; reflexivity).
+      assert (W2 : pi_r xw = false) by (unfold pi_r; cbn; rewrite Hrv; reflexivity).
+      assert (W3 : pw_s xw = false) by (unfold pw_s; cbn; rewrite Hrv; reflexivity).
+      assert (W4 : pi_s xw = false) by (unfold pi_s; cbn; rewrite Hrv; reflexivity).
+      rewrite W1, Q1, Enw in C1. rewrite W2, Q2 in C2. rewrite W3, Q3 in C3. rewrite W4, Q4 in C4. cbn [b2n] in C1, C2, C3, C4.
+      apply (K_after s _ 0 0 1 0 HK); try reflexivity.
+      * clear - C1. lia.
+      * clear - C2. lia.
+      * intros T. destruct HK as [_ _ K3]. fold (nq s) in K3. fold (ncap s) in K3. specialize (K3 T).
+        change (nq (with_arq (arq s ++ [(f, w)]) (setF f xw s))) with (nq s). clear - K3 C3 C4. lia.
+      * intros _ _ _. right. change (nq (with_arq (arq s ++ [(f, w)]) (setF f xw s))) with (nq s).
+        unfold nq. rewrite Hq. cbn [length]. clear. lia.
+  - destruct Hs as (-> & Hq & Hsc).
+    apply (Hfin s 0%nat); try assumption; try reflexivity.
+    + clear. lia.
+    + intros T. destruct HK as [_ _ K3]. exact (K3 T).
+Qed.
